@@ -699,6 +699,12 @@ def agreement(model, R):
         ra = [src(n.value) for n in walk(fa.body) if isinstance(n, ast.Return)]
         rb = [src(n.value) for n in walk(fb.body) if isinstance(n, ast.Return)]
         if len(ra) == 1 and len(rb) == 1:
+            if name == 'shape':
+                # Definition.objects / .properties are tuple copies of the ordered name sets: either spelling has the same length
+                node = [n.value for n in walk(fb.body) if isinstance(n, ast.Return)][0]
+                canon = rb[0].replace('self._objects', 'self.objects').replace('self._properties', 'self.properties')
+                R.expr(canon, ra[0], 'AGREEMENT', fb, f'{name} computed the same way by Context and Definition', at=node)
+                continue
             R.returns(fb, ra[0], 'AGREEMENT', f'{name} computed the same way by Context and Definition', expand=False)
         else:
             R.unknown('AGREEMENT', fb, fb.node, f'{name} computed the same way by Context and Definition', f'{len(ra)}/{len(rb)} returns')
@@ -724,6 +730,24 @@ def agreement(model, R):
                 'formats.Format[frmat].dumps(objects, properties, bools, **kwargs)', src(calls[0]) if calls else '')
         d = f.defaults().get(f.params[1])
         R.check(const(d) == 'table', 'API-DEFAULT', f, d or f.node, 'tostring default format', "'table'", src(d))
+    # nothing derived from the editable state of a definition is memoised
+    memo = ('lazyproperty', 'cached_property', 'lru_cache', 'cache')
+    dmod = model.modules['definitions']
+    n_seen = 0
+    for c in dmod.classes.values():
+        for m in c.methods.values():
+            n_seen += 1
+            deco = [(chain(d.func if isinstance(d, ast.Call) else d) or [''])[-1] for d in m.node.decorator_list]
+            hit = [d for d in deco if d in memo]
+            if not hit or not m.params:
+                continue
+            me = m.params[0]
+            reads = sorted({n.attr for n in ast.walk(m.node) if isinstance(n, ast.Attribute) and isinstance(n.value, ast.Name) and n.value.id == me})
+            R.decided(not reads, 'AGREEMENT', m, m.node, f'{c.name}.{m.name}: a value derived from the editable state is recomputed on every access',
+                      'a plain property / method', f'@{hit[0]} on a method reading self.{", self.".join(reads)}',
+                      extra={'consequence': 'a Definition is edited in place; the memoised value keeps describing the state at its first access '
+                                            '(shape, fill_ratio ... disagree with Context(*definition) after add/remove/set)'})
+    R.ok('AGREEMENT', 'definitions', 'concepts/definitions.py', f'{n_seen} methods of the definition classes scanned for memoisation')
     # fill_ratio
     f = model.func('definitions.Definition.fill_ratio')
     R.returns(f, 'fractions.Fraction(len(self._pairs), self.shape.size)', 'AGREEMENT', 'Definition.fill_ratio = true cells / size')
